@@ -38,6 +38,7 @@ fn get_server_values_impl(socket: &mut UdpSocket) -> GDResult<HashMap<String, St
     let mut received_query_id: Option<usize> = None;
     let mut parts: Vec<usize> = Vec::new();
     let mut is_finished = false;
+    let mut expected_parts: Option<usize> = None;
 
     let mut server_values = HashMap::new();
 
@@ -63,7 +64,7 @@ fn get_server_values_impl(socket: &mut UdpSocket) -> GDResult<HashMap<String, St
             server_values.insert(key, value);
         }
 
-        is_finished = server_values.remove("final").is_some();
+        let is_final = server_values.remove("final").is_some();
 
         let query_data = server_values.get("queryid");
 
@@ -93,6 +94,13 @@ fn get_server_values_impl(socket: &mut UdpSocket) -> GDResult<HashMap<String, St
             true => Err(GDErrorKind::PacketBad)?,
             false => parts.push(part),
         }
+
+        // Parts are numbered from 1, the one marked as final carries the count of parts, which
+        // can arrive in any order.
+        if is_final {
+            expected_parts = Some(part);
+        }
+        is_finished = expected_parts.is_some_and(|count| parts.len() >= count);
     }
 
     Ok(server_values)
